@@ -538,12 +538,16 @@ func (txn *Txn) commit() {
 
 	// Commit chunk by chunk to reduce lock contentions
 	txn.rangeWrite(func(commitID uint64, chunk commit.Chunk, fill bitmap.Bitmap) {
+		// Apply the column updates before the row markers. The buffers of different
+		// columns carry no mutual order, so when a transaction both updates and deletes
+		// a row, the delete must be applied last: otherwise the update lands on the dead
+		// row and its value, index bits and key survive for the next row at that offset.
+		updated := txn.commitUpdates(chunk)
 		if changedRows {
 			txn.commitMarkers(chunk, fill, markers)
 		}
 
-		// Attemp to update, if nothing was changed we're done
-		updated := txn.commitUpdates(chunk)
+		// If nothing was changed we're done
 		if !changedRows && !updated {
 			return
 		}
